@@ -1254,6 +1254,16 @@ class Protoc:
             with open(os.path.join(self.dir, "orig", base), "w", encoding="utf-8") as f:
                 f.write(text)
         self.schema = {m: parse_proto(t) for m, t in self.files.items()}
+        # `import 'other.proto';`: the imported definitions are visible under their base names
+        # (the zoo has no two definitions of one name)
+        for m, t in self.files.items():
+            for imp in re.findall(r"^import\s+['\"]([\w.]+)\.proto['\"];", t, flags=re.M):
+                other = self.schema.get(imp)
+                if other is not None:
+                    for k, v in other.messages.items():
+                        self.schema[m].messages.setdefault(k, v)
+                    for k, v in other.enums.items():
+                        self.schema[m].enums.setdefault(k, v)
         self.errors = {}           # (module, definition name) -> first protoc message inside it
         self.file_errors = {}      # module -> full protoc stderr of the unmodified file
         self.dropped = {}          # module -> set of definitions removed to obtain a usable file
@@ -1261,8 +1271,17 @@ class Protoc:
         if self.bin:
             rc, out, err = vlib.sh([self.bin, "--version"])
             self.version = out.strip()
-            for m in self.files:
-                self.validate(m)
+            # imported files first: a file is validated against the usable copies of its imports
+            deps = {m: [i for i in re.findall(r"^import\s+['\"]([\w.]+)\.proto['\"];", t, flags=re.M) if i in self.files]
+                    for m, t in self.files.items()}
+            done = []
+            while len(done) < len(self.files):
+                ready = [m for m in sorted(self.files) if m not in done and all(d in done for d in deps[m])]
+                if not ready:          # import cycle: take them as they come
+                    ready = [m for m in sorted(self.files) if m not in done]
+                for m in ready:
+                    self.validate(m)
+                    done.append(m)
 
     def owner(self, module, line):
         sc = self.schema[module]
